@@ -259,19 +259,50 @@ func ruleWithdrawClass(r *core.Run) {
 	cnt := map[string]int{}
 	// the per-shard loop may have been moved into a helper: every frame under Withdraw is searched, terms and
 	// guards are expressed in Withdraw's vocabulary (#2 = the order)
-	for _, fr := range frames(r, fn) {
-		res := r.Resolver(fr.Fn)
-		for _, l := range cfgx.Loops(fr.Fn) {
-			if !rangesField(r, fr.Fn, l, "Shards") {
-				continue
+	all := frames(r, fn)
+	// inShardLoop: at some level of the frame chain the instruction sits in a loop ranging over an order's Shards
+	inShardLoop := func(fr frame, ins ssa.Instruction) bool {
+		fns := fr.Fns(fn)
+		for lvl := range fns {
+			g := fns[lvl]
+			at := fr.At(lvl, ins)
+			var gfr *frame
+			for _, x := range all {
+				if x.Fn == g && len(x.Chain) == lvl {
+					same := true
+					for i := range x.Chain {
+						if x.Chain[i] != fr.Chain[i] {
+							same = false
+						}
+					}
+					if same {
+						y := x
+						gfr = &y
+					}
+				}
 			}
-			for _, b := range fr.Fn.Blocks {
-				if !l.Body[b] {
+			for _, l := range cfgx.Loops(g) {
+				if !l.Body[at.Block()] {
 					continue
 				}
+				ro := rangedOver(r, g, l)
+				if gfr != nil {
+					ro = normT(gfr.Sub(ro))
+				}
+				if ro != "" && strings.HasSuffix(ro, ".Shards") && !strings.HasPrefix(ro, "phi(") && !strings.HasPrefix(ro, "builtin.append(") {
+					return true
+				}
+			}
+		}
+		return false
+	}
+	for _, fr := range all {
+		res := r.Resolver(fr.Fn)
+		{
+			for _, b := range fr.Fn.Blocks {
 				for _, ins := range b.Instrs {
 					c, ok := ins.(*ssa.Call)
-					if !ok {
+					if !ok || !inShardLoop(fr, c) {
 						continue
 					}
 					name, _ := res.CalleeName(&c.Call)
